@@ -12,5 +12,5 @@ else:
     sys.exit('no such property')
 text = (f"Title: {p['title']}\nStatement: {p['statement']}\nQuantifier: {p['quantifier']}\n"
         f"Why unit tests cannot settle it: {p['why_tests_cant']}\nAnchored in: {json.dumps(p['anchors'])}")
-tpl = open(os.path.join(HERE, '.scratch', 'MUTANT_PROMPT.md')).read()
+tpl = open(os.path.join(HERE, 'tools', 'prompts', 'MUTANT_PROMPT.md')).read()
 print(tpl.replace('__ID__', pid + variant).replace('__PROPERTY__', text))
